@@ -36,7 +36,7 @@ CURATED = ['', ' ', '  ', 'a b', "it's", '"q"', '$(HOME)', '${HOME}', '$$', '$HO
 CONTEXTS = ['cmd_arg', 'cmd_env', 'cmd_str_envref', 'step_str_envref', 'cmd_word', 'cmds_multi', 'step_arg', 'step_jbos',
             'test_arg', 'test_env', 'driver_arg', 'driver_child', 'driver_child_wrap',
             'driver_nested', 'compile_opt', 'compile_opt_str', 'define_value',
-            'link_opt', 'link_opt_str', 'include_path', 'desc_step', 'symlink_src',
+            'link_opt', 'link_opt_str', 'include_path', 'desc_step', 'symlink_src', 'symlink_gen',
             'copy_src_desc']
 SCRIPT_CONTEXTS = ['global_opt', 'global_opt_str', 'global_link_opt', 'env_cflags',
                    'env_cppflags', 'env_ldflags', 'env_ldlibs']
@@ -61,7 +61,7 @@ def admissible(ctx, s):
         # '-' option for neither sh nor make: both are legitimate words
         if re.match(r'^[A-Za-z_][A-Za-z0-9_]*=', s):
             return False
-    if ctx in ('symlink_src', 'copy_src_desc'):
+    if ctx in ('symlink_src', 'copy_src_desc', 'symlink_gen'):
         # a source file name: one component, nothing the file system refuses.  Characters
         # for which Make itself has no working escape in prerequisites are C04's business
         # (calibrated there); keep to names make can carry as a prerequisite.
@@ -294,6 +294,16 @@ def render_script(slots, script_slots=()):
             defaults.append('t%d' % i)
             exp[i] = {'kind': 'copy', 'src': fname, 'out': 'l%d' % i,
                       'tool': 'vwrap-ln' if mode == 'symlink' else 'vwrap-cp'}
+        elif ctx == 'symlink_gen':
+            # a symbolic link to a GENERATED file in another build sub-directory: the link
+            # target is a path relative to the link's own directory
+            gname = 'gd%d/g_%s' % (i, s)
+            L.append("g%d = build_step(%s, cmd=['vrec', '--touch', build_step.output, '--end'])"
+                     % (i, _r(gname)))
+            L.append("t%d = copy_file('ld%d/l%d', g%d, mode='symlink')" % (i, i, i, i))
+            defaults.append('t%d' % i)
+            exp[i] = {'kind': 'copy-gen', 'gen': gname, 'out': 'l%d' % i, 'linkdir': 'ld%d' % i,
+                      'tool': 'vwrap-ln'}
         elif ctx == 'link_opt':
             need_src = True
             L.append("t%d = executable('ex%d', files=[shared_obj], link_options=[%s])" % (i, i, _r(s)))
@@ -580,6 +590,22 @@ def judge(backend, slots, script_slots, out, exp, root_hint=None):
             got = os.path.normpath(os.path.join(r['cwd'], a[-2])) if len(a) >= 3 else None
             ok = (len(a) == 4 and got == os.path.normpath(srcpath))
             verdict[i] = None if ok else ('argv-differs', a)
+        elif k == 'copy-gen':
+            rs = [r for r in recs if os.path.basename(r['name']) == e['tool'] and
+                  os.path.basename(r['argv'][-1]) == e['out']]
+            if len(rs) != 1:
+                verdict[i] = ('not-started' if not rs else 'started-%d-times' % len(rs),
+                              [r['argv'] for r in rs])
+                continue
+            r = rs[0]
+            a = r['argv']
+            want = os.path.normpath(os.path.join(r['cwd'], e['gen']))
+            got = os.path.normpath(os.path.join(r['cwd'], e['linkdir'], a[-2])) \
+                if len(a) >= 3 else None
+            ok = (len(a) == 4 and got == want and
+                  os.path.normpath(os.path.join(r['cwd'], a[-1])) ==
+                  os.path.normpath(os.path.join(r['cwd'], e['linkdir'], e['out'])))
+            verdict[i] = None if ok else ('argv-differs', a)
         elif k in ('compile', 'link', 'ar'):
             rs = by_out.get(e['out'], [])
             if len(rs) != 1:
@@ -715,6 +741,8 @@ def run_case(backend, case):
                     res.inconclusive = sub.inconclusive
         res.events['slots:held-in-batch'] = res.events.get('slots:held-in-batch', 0)
         return res
+    failed_alone = 0
+    held_alone = []
     for sl, is_script in suspects:
         v, o1 = probe_single(backend, sl['ctx'], sl['s'], is_script, sl.get('style', 'single'))
         res.ev('slots:isolated-rerun')
@@ -722,7 +750,9 @@ def run_case(backend, case):
             # held when alone: the batch result was collateral of another slot
             res.ev('slots:held-when-isolated')
             res.ev('ctx:' + sl['ctx'])
+            held_alone.append((sl, is_script))
             continue
+        failed_alone += 1
         what, observed = v
         if o1.configure_rc != 0:
             what = 'configure-failed'
@@ -742,6 +772,45 @@ def run_case(backend, case):
                      '__case__': {'backend': backend,
                                   'slots': [] if is_script else [dict(sl, id=1)],
                                   'script_slots': [dict(sl, id=1)] if is_script else []}})
+    if held_alone and not failed_alone and out.configure_rc == 0:
+        # slots failed in the batch, none of them fails alone, and no slot that fails alone
+        # explains it: the failure needs a COMBINATION of steps in one script.  Reduce the
+        # first such slot's partners to a single one and report the pair.
+        for sl, is_script in held_alone[:2]:
+            others = [x for x in slots if x is not sl] if not is_script else []
+            if is_script or not others:
+                continue
+
+            def fails_with(part):
+                # keep the script order of the batch: which step comes first may matter
+                sub = [x for x in slots if x is sl or any(x is y for y in part)]
+                o2, e2 = run_script(backend, sub, [])
+                if o2.configure_rc != 0:
+                    return False
+                return judge(backend, sub, [], o2, e2).get(sl['id']) is not None
+            part = others
+            res.ev('slots:combination-reduction')
+            if not fails_with(part):
+                continue          # not reproducible without the script slots: leave it
+            while len(part) > 1:
+                half = part[:len(part) // 2]
+                rest = part[len(part) // 2:]
+                if fails_with(half):
+                    part = half
+                elif fails_with(rest):
+                    part = rest
+                else:
+                    break
+            res.violate((backend, sl['ctx'], 'only-together-with:' +
+                         '+'.join(sorted({x['ctx'] for x in part}))[:80]),
+                        {'backend': backend, 'context': sl['ctx'], 'arg': sl['s'],
+                         'what': 'fails-only-in-combination',
+                         'observed': batch_verdict.get(sl['id']),
+                         'partners': [[x['ctx'], x['s']] for x in part[:6]],
+                         '__case__': {'backend': backend,
+                                      'slots': [dict(x) for x in slots
+                                                if x is sl or any(x is y for y in part[:6])],
+                                      'script_slots': []}})
     if slots or sslots:
         sl = (slots + sslots)[len(slots + sslots) // 2]
         e = exp.get(sl['id'], {})
